@@ -12,6 +12,22 @@ EXEC_TRUST = ("Trusted base: TLC 1.8.0, spec/JetExec.tla + JetProg.tla (the inte
               "Go data kinds beyond the harness catalogue are not explored.")
 
 CHECKS = {
+ "C07": dict(
+   technique="TLA+ JetExec interpreter machine model-checked by TLC over scoping program families (Gen_C07: wrapper paths x "
+             "declare/rebind/shadow focals, loop-variable capture per ranger kind); every behaviour replayed on the real interpreter",
+   text="TLC executes the interpreter specification on every program of the family, checking at each construct exit that scope, "
+        "context, content and writer are those at entry; the real library must render exactly the specification's output for "
+        "reads of every variable, isset of every declared name and '.' before, inside and after each construct, with shadowing "
+        "of VarMap entries and globals and captured loop variables of every ranger kind.",
+   design_ref="DESIGN.md §5 C07", note=EXEC_TRUST),
+ "C10": dict(
+   technique="TLA+ JetExec with the pooled-Runtime protocol (ExecStart/ExecEnd) model-checked by TLC over histories of Execute "
+             "calls (Gen_C10); each history replayed on one goroutine of the real library so sync.Pool hands the Runtime back",
+   text="TLC explores every history A, probe, A, probe where A is a wrapper path around a focal that may fail inside or outside "
+        "try, checks that each execution starts from a clean Runtime and that the specification is itself pure; the as-implemented "
+        "recover (content not reset) is refuted at design level. The real library executes each history in one process on one "
+        "goroutine and every call must produce the specification's bytes and error, the second A identical to the first.",
+   design_ref="DESIGN.md §5 C10", note=EXEC_TRUST + " sync.Pool reuse on one goroutine is likely but not guaranteed by Go."),
  "C13": dict(
    technique="TLA+ JetExec (small-step interpreter machine with explicit Go panic/defer unwinding) model-checked by TLC over "
              "generated program families (Gen_C13); every terminated behaviour concretised to Jet source and replayed on the real "
